@@ -8,6 +8,10 @@
    2. HTTP/2 connection-level receive window (internal/http2 flow.go inflow.take/add,
       clientConnReadLoop.processData for a stream that was reset and forgotten): the bytes are
       taken from the connection window and handed back at once.
+   4. The HPACK encoder of an HTTP/2 connection (internal/http2 clientStream.encodeAndWriteHeaders,
+      under the connection's write lock): a request whose context has ended when the lock is obtained
+      is not encoded; once the encoding has started the block is written, whatever happens to the
+      context meanwhile.
    3. A dial shared by two requests (HTTP/3 RoundTripOpt, HTTP/2 getClientConn/shouldRetryDial):
       the dial runs with the context of the request that started it; a waiter whose own context
       is alive dials for itself when the shared dial ended with the owner's context error. *)
@@ -149,3 +153,26 @@ Fixpoint shrun (dl_too : bool) (s : shst) (ls : list slabel) : option shst :=
   | [] => Some s
   | l :: r => match shstep dl_too s l with Some s' => shrun dl_too s' r | None => None end
   end.
+
+(* ---------- 4. HPACK encoder / decoder tables ---------- *)
+
+Record hst := mkHp {
+  h_enc : list nat;    (* header blocks the connection's encoder has processed (request ids) *)
+  h_sent : list nat    (* header blocks written to the peer = processed by its decoder *)
+}.
+
+(* request i reaches encodeAndWriteHeaders; its context had ended before (cb) / ends while the
+   header fields are being encoded (cd).  [late] = the seeded variant that tests the context after
+   the encoding *)
+Inductive hlabel := HSend (i : nat) (cb cd : bool).
+
+Definition hstep (late : bool) (s : hst) (l : hlabel) : hst :=
+  match l with
+  | HSend i cb cd =>
+      if late then
+        if cb || cd then mkHp (h_enc s ++ [i]) (h_sent s) else mkHp (h_enc s ++ [i]) (h_sent s ++ [i])
+      else
+        if cb then s else mkHp (h_enc s ++ [i]) (h_sent s ++ [i])
+  end.
+
+Definition hrun (late : bool) (ls : list hlabel) : hst := fold_left (hstep late) ls (mkHp [] []).
